@@ -32,13 +32,19 @@ type CheckCfg struct {
 }
 
 func loadChecks() (map[string]*CheckCfg, error) {
-	b, err := os.ReadFile(filepath.Join(gHarnessDir, "checks.json"))
-	if err != nil {
-		return nil, err
-	}
+	// one file per property: harness/checks/<ID>.json
 	m := map[string]*CheckCfg{}
-	if err := json.Unmarshal(b, &m); err != nil {
-		return nil, err
+	files, _ := filepath.Glob(filepath.Join(gHarnessDir, "checks", "*.json"))
+	for _, f := range files {
+		b, err := os.ReadFile(f)
+		if err != nil {
+			return nil, err
+		}
+		c := &CheckCfg{}
+		if err := json.Unmarshal(b, c); err != nil {
+			return nil, fmt.Errorf("%s: %v", f, err)
+		}
+		m[strings.TrimSuffix(filepath.Base(f), ".json")] = c
 	}
 	return m, nil
 }
